@@ -114,6 +114,11 @@ fn escape_regex(lit: &str) -> String {
         .replace('^', "\\^")
         .replace('$', "\\$")
         .replace('/', "\\/")
+        // the pattern is printed as a JavaScript regex literal, which cannot contain a line terminator
+        .replace('\n', "\\n")
+        .replace('\r', "\\r")
+        .replace('\u{2028}', "\\u2028")
+        .replace('\u{2029}', "\\u2029")
 }
 
 impl TplLitTypeItem {
